@@ -48,11 +48,22 @@ namespace cnl {
 
     template<typename Source, tag SrcTag, typename Destination>
     requires(!_impl::is_rounding_tag<SrcTag>::value && _impl::are_arithmetic_or_integer<Destination, Source>::value) struct custom_operator<_impl::convert_op, op_value<Source, SrcTag>, op_value<Destination, nearest_rounding_tag>> {
+    private:
+        // rounds using the exact fractional part left over by truncation (adding .5 is inexact)
+        [[nodiscard]] static constexpr auto round(Source x, Destination x_whole)
+        {
+            return ((x - static_cast<Source>(x_whole)) >= static_cast<Source>(.5L))
+                         ? static_cast<Destination>(x_whole + 1)
+                 : ((x - static_cast<Source>(x_whole)) <= static_cast<Source>(-.5L))
+                         ? static_cast<Destination>(x_whole - 1)
+                         : x_whole;
+        }
+
+    public:
         [[nodiscard]] constexpr auto operator()(Source const& from) const
         {
             return std::numeric_limits<Destination>::is_integer && std::is_floating_point<Source>::value
-                         ? static_cast<Destination>(
-                                 static_cast<long double>(from) + ((from >= Source{}) ? .5L : -.5L))
+                         ? round(from, static_cast<Destination>(from))
                          : static_cast<Destination>(from);
         }
     };
